@@ -31,6 +31,20 @@ def splintCubic (xlo xhi ylo yhi y2lo y2hi x : α) : α :=
   let b := (x - xlo) / h
   a * ylo + b * yhi + ((a * a * a - a) * y2lo + (b * b * b - b) * y2hi) * (h * h) / (6.0 : α)
 
+/-- the evaluation after the bisection (src/splint.c:71-83) -/
+def splintAt (xa ya y2a : Vec α) (klo khi : Int) (x : α) (error : Slot) : M (Int × α × Slot) := do
+  let xlo ← rdv "splint.xa[klo]" xa (klo - 1)
+  let xhi ← rdv "splint.xa[khi]" xa (khi - 1)
+  let ylo ← rdv "splint.ya[klo]" ya (klo - 1)
+  let yhi ← rdv "splint.ya[khi]" ya (khi - 1)
+  let h := xhi - xlo
+  if deq h (0.0 : α) then
+    pure (1, (ylo + yhi) / (2.0 : α), error)
+  else
+    let y2lo ← rdv "splint.y2a[klo]" y2a (klo - 1)
+    let y2hi ← rdv "splint.y2a[khi]" y2a (khi - 1)
+    pure (1, splintCubic xlo xhi ylo yhi y2lo y2hi x, error)
+
 def splint (xa ya y2a : Vec α) (n : Int) (x : α) (error : Slot) : M (Int × α × Slot) := do
   let xn ← rdv "splint.xa[n]" xa (n - 1)
   if (1.0e-7 : α) < x - xn then
@@ -43,19 +57,7 @@ def splint (xa ya y2a : Vec α) (n : Int) (x : α) (error : Slot) : M (Int × α
       pure (0, (0.0 : α), error)
     else
       let r := bisect (fun k => decide (x < xa.get (k - 1))) n.toNat 1 n.toNat
-      let klo : Int := r.1
-      let khi : Int := r.2
-      let xlo ← rdv "splint.xa[klo]" xa (klo - 1)
-      let xhi ← rdv "splint.xa[khi]" xa (khi - 1)
-      let ylo ← rdv "splint.ya[klo]" ya (klo - 1)
-      let yhi ← rdv "splint.ya[khi]" ya (khi - 1)
-      let h := xhi - xlo
-      if deq h (0.0 : α) then
-        pure (1, (ylo + yhi) / (2.0 : α), error)
-      else
-        let y2lo ← rdv "splint.y2a[klo]" y2a (klo - 1)
-        let y2hi ← rdv "splint.y2a[khi]" y2a (khi - 1)
-        pure (1, splintCubic xlo xhi ylo yhi y2lo y2hi x, error)
+      splintAt xa ya y2a (r.1 : Int) (r.2 : Int) x error
 
 end
 end Xrl
